@@ -75,13 +75,13 @@ def gen_program(rnd, w, profile):
     kinds += dm
     names = programs.name_steps(rnd, kinds)
     mc_kwargs = dict(profile.get("mc", {}))
-    if w["bands"] > 1:
-        mc_kwargs["subpix"] = (1,)  # multiband + subpix>1 raises in sad/ssd (C02 matter, out of scope)
     prog = []
     conf_suffix = {}
     for k, n in zip(kinds, names):
         if k == "matching_cost":
             p = programs.p_matching_cost(rnd, w, **mc_kwargs)
+            if w["bands"] > 1 and p["matching_cost_method"] in ("sad", "ssd"):
+                p["subpix"] = 1  # multiband + subpix>1 raises in sad/ssd (C02 matter, out of scope)
         elif k == "cost_volume_confidence":
             p = programs.p_confidence(rnd, w, methods=profile.get("conf_methods"))
             conf_suffix.setdefault(p["confidence_method"], []).append(n.split(".")[1] if n.count(".") == 1 else "")
